@@ -30,8 +30,8 @@ Print Assumptions validate_nonzero.
 (* for a non-200 response that carries no valid protocol-level error the code is
    derived from the HTTP status (and that table never yields 0) *)
 Theorem non200_code_from_status :
-  (forall status j, status <> 200 -> connect_wire_decode j = None ->
-     connect_unary_validate status true j = Some (connect_http_to_code status)) /\
+  (forall status enc j, status <> 200 -> (enc = false \/ connect_wire_decode j = None) ->
+     connect_unary_validate status enc j = Some (connect_http_to_code status)) /\
   (forall status enc hs d, status <> 200 ->
      grpc_validate status enc hs d = Some (grpc_http_to_code status)) /\
   (forall status enc, status <> 200 ->
